@@ -143,6 +143,67 @@ theorem processTx_P15 (height b f : Nat) (fa : Int) (tx : Tx) :
     · simp [hwf] at hd
     · simp [hwf]
 
+/-- **C15 (pipeline, several resources), all inputs.** Whatever the list of configured resources (addresses, fee
+    thresholds, any order): a transaction is credited to the first resource whose bridge address it pays and whose OWN fee
+    threshold it meets, with the exact-amount / payload / nonce guarantees of `P15tx` for that resource; otherwise, or with a
+    malformed OP_RETURN output, nothing is emitted.  History-free: the outcome depends on this transaction and the
+    configuration only — not on earlier blocks, earlier calls, or the other transactions of the block. -/
+theorem processTxR_P15 (height f : Nat) (rs : List Res) (tx : Tx) :
+    P15txR height f rs tx (processTxR height f rs tx) := by
+  induction rs with
+  | nil => unfold P15txR processTxR; split <;> simp
+  | cons r rs ih =>
+    have hd := decode_P15 r.addr f r.fee tx.vouts
+    have hsingle := processTx_P15 height r.addr f r.fee tx
+    unfold P15dec at hd
+    unfold P15txR at ih ⊢
+    by_cases hwf : WF tx.vouts = true
+    · simp only [hwf, ↓reduceIte] at hd ih ⊢
+      cases hdec : decode r.addr f r.fee tx.vouts with
+      | deposit a d =>
+        rw [hdec] at hd
+        have hc : credits f tx r = true := by simp [credits, hd.1, hd.2.1]
+        simp only [List.find?_cons, hc]
+        unfold processTx at hsingle
+        simp only [hdec] at hsingle
+        simp only [processTxR, hdec]
+        cases hh : handleDeposit a d with
+        | msg dest ab rc => simp only [hh] at hsingle ⊢; exact ⟨hsingle, by simp⟩
+        | err => simp only [hh] at hsingle ⊢; exact ⟨hsingle, by simp⟩
+        | panic => simp only [hh] at hsingle ⊢; exact ⟨hsingle, by simp⟩
+      | notDeposit =>
+        rw [hdec] at hd
+        have hc : credits f tx r = false := by
+          simp only [credits, Bool.and_eq_false_imp, decide_eq_false_iff_not]
+          intro hb hf; exact hd ⟨hb, hf⟩
+        simp only [List.find?_cons, hc, processTxR, hdec]
+        exact ih
+      | err => rw [hdec] at hd; exact hd.elim
+      | panic => rw [hdec] at hd; exact hd.elim
+    · have hwf' : WF tx.vouts = false := Bool.eq_false_iff.mpr hwf
+      simp only [hwf', Bool.false_eq_true, ↓reduceIte]
+      rcases malformed_not_credited r.addr f r.fee tx.vouts hwf' with h | h <;> simp [processTxR, h]
+
+/-- each resource is judged by its own threshold: a transaction paying resource `r`'s address and `r`'s fee is credited even
+    if every other configured resource asks for more, and one that under-pays `r`'s fee is not credited to `r` even if the
+    others ask for less -/
+theorem own_fee_threshold (height f : Nat) (rs : List Res) (tx : Tx) (x : Nat × Msg)
+    (h : processTxR height f rs tx = some x) :
+    ∃ r ∈ rs, r.rid = x.1 ∧ paysBridge r.addr tx.vouts = true ∧ r.fee ≤ (feeSum f tx.vouts : Int) := by
+  have hp := processTxR_P15 height f rs tx
+  rw [h] at hp
+  unfold P15txR at hp
+  by_cases hwf : WF tx.vouts = true
+  · simp only [hwf, ↓reduceIte] at hp
+    cases hf : rs.find? (credits f tx) with
+    | none => simp [hf] at hp
+    | some r =>
+      simp only [hf] at hp
+      have hc := List.find?_some hf
+      simp only [credits, Bool.and_eq_true, decide_eq_true_eq] at hc
+      exact ⟨r, List.mem_of_find?_eq_some hf, (hp.2 x rfl).symm, hc.1, hc.2⟩
+  · simp [hwf] at hp
+
 /-- the emitted messages of a block are exactly the per-transaction results, in block order: a transaction that fails or
     panics suppresses nothing but itself -/
 theorem process_eq (height b f : Nat) (fa : Int) (txs : List Tx) :
@@ -208,6 +269,13 @@ example : handleDeposit 3 ([0x30, 0x78, 0x34, 0x32] ++ [0x5f, 0x31]) =
   have h : natToBE (3 * 10 ^ 10) = [0x06, 0xfc, 0x23, 0xac, 0x00] := by simp [natToBE, natToBEAux]
   simp only [handleDeposit, h]
   decide
+
+/-- two resources with thresholds 5 and 9 on different addresses, fee paid 7: the cheaper one is credited, the dearer one is not -/
+example :
+    let mk (b : Nat) : Tx := ⟨[0x61], [⟨.taproot, b, 30, some []⟩, ⟨.taproot, 9, 7, some []⟩, ⟨.nulldata, 4, 0, some [0x6a, 3, 0x31, 0x5f, 0x32]⟩]⟩
+    (processTxR 100 9 [⟨1, 0, 5⟩, ⟨2, 1, 9⟩] (mk 0)).map (·.1) = some 1 ∧ processTxR 100 9 [⟨1, 0, 5⟩, ⟨2, 1, 9⟩] (mk 1) = none ∧
+    (processTxR 100 9 [⟨1, 0, 9⟩, ⟨2, 1, 5⟩] (mk 1)).map (·.1) = some 2 := by
+  refine ⟨?_, ?_, ?_⟩ <;> simp [processTxR, decode, run, step, St.init, handleDeposit, splitOn, parseU8, isDigit, decVal]
 
 example : handleDeposit 3 [0x30, 0x78] = .panic ∧ handleDeposit 3 [0x5f, 0x32, 0x35, 0x36] = .err := by decide
 
